@@ -10,7 +10,13 @@
 //! F(key, log) = a fresh object of the same type and key fed `log` in one call; for the legacy
 //! digest objects additionally the one-call hashing::* function.
 //! Faults: reset at an arbitrary instant ("crash/restart": only the key may survive), repeated
-//! result (duplication), input after result (misuse), fork.
+//! result (duplication), input after result (misuse), result into a buffer of the wrong size (misuse), fork.
+//!
+//! After a call that was REFUSED loudly (a caught panic) the history goes on with the same object. The model is
+//! unchanged by a refused call. From then on a call may fail loudly (the object may consider itself poisoned - the
+//! handle is then retired, no violation), but a call that RETURNS must return what the model says: a refused call
+//! must never turn into a silently wrong MAC or digest later ("no history makes an object return a value that is not
+//! the MAC or digest of the bytes fed since the last reset").
 
 use crate::guard::guarded;
 use crate::rng::{data, Aligned, Rng};
@@ -24,7 +30,8 @@ pub const K_RESET: u8 = 2;
 pub const K_RESET_KEY: u8 = 3; // arg = key len, seed = key seed (legacy BLAKE2 only)
 pub const K_FORK: u8 = 4;
 pub const K_RESET_PLAIN: u8 = 5; // Digest::reset / inherent reset of a legacy BLAKE2 MAC: documented as "state after new" (unkeyed)
-const KINDS: &[&str] = &["input", "result", "reset", "reset_with_key", "fork", "reset_to_unkeyed"];
+pub const K_RESULT_WRONG: u8 = 6; // raw_result / Digest::result into a buffer of the wrong size (arg selects the size): must be refused
+const KINDS: &[&str] = &["input", "result", "reset", "reset_with_key", "fork", "reset_to_unkeyed", "result_into_wrong_size_buffer"];
 
 pub struct Lifecycle;
 
@@ -83,6 +90,20 @@ struct Handle {
     log: Vec<u8>,
     done: Option<Vec<u8>>,
     resets: u32,
+    /// a call on this object was refused loudly earlier: later calls may fail loudly too, but must not return wrong values
+    refused: bool,
+}
+
+/// buffer sizes that are invalid for the object's result call
+fn wrong_size(v: &LVariant, n: usize, sel: u64) -> usize {
+    match v.class {
+        // Poly1305::raw_result documents "at least 16 bytes": only too-small buffers are invalid
+        Class::Poly => [0usize, 15, 1, 8][(sel % 4) as usize],
+        _ => {
+            let c = [0usize, n.saturating_sub(1), n + 1, 2 * n, n + 16, 1][(sel % 6) as usize];
+            if c == n { n + 1 } else { c }
+        }
+    }
 }
 
 fn key_for(v: &LVariant, rng: &mut Rng) -> usize {
@@ -124,7 +145,10 @@ impl Scenario for Lifecycle {
         let misuse = rng.chance(1, 2); // fault-free and fault-injecting configurations are separate
         let max_handles = rng.range(1, 3) as usize;
         let nops = rng.range(2, if tier == Tier::Thorough { 40 } else { 20 });
-        let mut w = [12u32, 4, 0, 0, 0, 0];
+        let mut w = [12u32, 4, 0, 0, 0, 0, 0];
+        if misuse && rng.chance(1, 2) {
+            w[K_RESULT_WRONG as usize] = 1;
+        }
         if rng.chance(3, 4) {
             w[K_RESET as usize] = 3;
         }
@@ -174,6 +198,14 @@ impl Scenario for Lifecycle {
                     t.ops.push(Op::new(h as u8, K_RESET_PLAIN));
                     sh[h] = (0, false);
                 }
+                K_RESULT_WRONG => {
+                    t.ops.push(Op::new(h as u8, K_RESULT_WRONG).arg(rng.below(12)));
+                    // usually followed at once by the call done properly: the refused call must not have damaged anything
+                    if rng.chance(2, 3) {
+                        t.ops.push(Op::new(h as u8, K_RESULT).off(rng.below(2) as u8));
+                        sh[h].1 = true;
+                    }
+                }
                 K_RESET_KEY => {
                     let kl = match rng.below(4) { 0 => 0, 1 => v.max_key, _ => rng.range(1, v.max_key as u64) as usize };
                     t.ops.push(Op::new(h as u8, K_RESET_KEY).arg(kl as u64).seed(rng.data_seed()));
@@ -205,7 +237,7 @@ impl Scenario for Lifecycle {
         let key0 = data(t.p("key_seed"), klen);
         let name = v.name.as_str();
         let first = guarded(|| fresh(v, outlen, &key0)).map_err(|m| Violation::new("unexpected-panic", 0, "object constructed", m, name))?;
-        let mut hs: Vec<Option<Handle>> = vec![Some(Handle { obj: first, key: key0, log: Vec::new(), done: None, resets: 0 })];
+        let mut hs: Vec<Option<Handle>> = vec![Some(Handle { obj: first, key: key0, log: Vec::new(), done: None, resets: 0, refused: false })];
         let b = v.block;
 
         for (i, op) in t.ops.iter().enumerate() {
@@ -230,7 +262,7 @@ impl Scenario for Lifecycle {
                         match r {
                             Err(_) => {
                                 obs.hit("observed.loud_failure");
-                                hs[h] = None; // no promise about an object that unwound
+                                hd.refused = true; // the history goes on; the model is unchanged by a refused call
                             }
                             Ok(()) => {
                                 let sym = if v.class == Class::Poly && hd.log.len() % 16 == 0 { " symptom=poly1305-input-accepted-after-result-of-block-aligned-message" } else { "" };
@@ -238,9 +270,18 @@ impl Scenario for Lifecycle {
                             }
                         }
                     } else {
-                        r.map_err(|m| Violation::new("unexpected-panic", i, "input accepted", m, name))?;
-                        hd.log.extend_from_slice(a.get());
-                        obs.pos(hd.log.len() as u64);
+                        match r {
+                            Ok(()) => {
+                                hd.log.extend_from_slice(a.get());
+                                obs.pos(hd.log.len() as u64);
+                            }
+                            Err(_) if hd.refused => {
+                                // an object that refused a call earlier may consider itself poisoned: loud, not wrong
+                                obs.hit("observed.loud_failure_after_an_earlier_refusal");
+                                hs[h] = None;
+                            }
+                            Err(m) => return Err(Violation::new("unexpected-panic", i, "input accepted", m, name)),
+                        }
                     }
                 }
                 K_RESULT => {
@@ -248,6 +289,10 @@ impl Scenario for Lifecycle {
                     let raw = op.off & 1 == 1;
                     let r = guarded(|| hd.obj.result(raw));
                     match (&hd.done, r) {
+                        (None, Err(_)) if hd.refused => {
+                            obs.hit("observed.loud_failure_after_an_earlier_refusal");
+                            hs[h] = None;
+                        }
                         (None, Err(m)) => return Err(Violation::new("unexpected-panic", i, "result", m, name)),
                         (None, Ok(got)) => {
                             obs.out(&got);
@@ -266,7 +311,16 @@ impl Scenario for Lifecycle {
                                         }
                                     }
                                 }
-                                return Err(Violation::bytes("tag-mismatch", i, &want, &got, format!("{}: result over {} bytes (key {} bytes, {} resets before) differs from a fresh object fed the same bytes in one call{}", name, hd.log.len(), hd.key.len(), hd.resets, sym)));
+                                let after = if hd.refused { " [after an earlier call on this object was refused loudly]" } else { "" };
+                                return Err(Violation::bytes("tag-mismatch", i, &want, &got, format!("{}: result over {} bytes (key {} bytes, {} resets before) differs from a fresh object fed the same bytes in one call{}{}", name, hd.log.len(), hd.key.len(), hd.resets, after, sym)));
+                            }
+                            if let Class::BlakeMac(sflag) = v.class {
+                                // the legacy static one-call function of the same algorithm
+                                let (k, l) = (hd.key.clone(), hd.log.clone());
+                                let one = guarded(move || blake_static_oneshot(sflag, outlen, &l, &k)).map_err(|m| Violation::new("unexpected-panic", i, "static one-call function", m, name))?;
+                                if one != got {
+                                    return Err(Violation::bytes("digest-mismatch", i, &got, &one, format!("{}: the static one-call function disagrees with the object over {} bytes (key {} bytes)", name, hd.log.len(), hd.key.len())));
+                                }
                             }
                             if v.class == Class::Digest {
                                 let info = digest_info(v.digest).unwrap();
@@ -280,7 +334,7 @@ impl Scenario for Lifecycle {
                         (Some(_), Err(_)) => {
                             obs.hit("fault.result_twice");
                             obs.hit("observed.loud_failure");
-                            hs[h] = None;
+                            hd.refused = true;
                         }
                         (Some(prev), Ok(got)) => {
                             obs.hit("fault.result_twice");
@@ -293,13 +347,36 @@ impl Scenario for Lifecycle {
                         }
                     }
                 }
+                K_RESULT_WRONG => {
+                    let hd = hs[h].as_mut().unwrap();
+                    let n = hd.obj.out_len();
+                    let size = wrong_size(v, n, op.arg);
+                    obs.hit("fault.result_into_wrong_size_buffer");
+                    match guarded(|| hd.obj.result_into(size)) {
+                        Err(_) => {
+                            obs.hit("observed.loud_failure");
+                            hd.refused = true;
+                        }
+                        Ok(got) => {
+                            return Err(Violation::new("missing-panic", i, "loud failure (panic)", format!("returned {} bytes", got.len()), format!("{}: result into a {}-byte buffer (output size {}) was accepted (message so far {} bytes, result already taken: {})", name, size, n, hd.log.len(), hd.done.is_some())));
+                        }
+                    }
+                }
                 K_RESET => {
                     let hd = hs[h].as_mut().unwrap();
                     obs.hit("fault.reset");
                     if hd.done.is_none() && !hd.log.is_empty() {
                         obs.hit("probe.reset_with_inflight_bytes");
                     }
-                    guarded(|| hd.obj.reset()).map_err(|m| Violation::new("unexpected-panic", i, "reset", m, name))?;
+                    match guarded(|| hd.obj.reset()) {
+                        Ok(()) => {}
+                        Err(_) if hd.refused => {
+                            obs.hit("observed.loud_failure_after_an_earlier_refusal");
+                            hs[h] = None;
+                            continue;
+                        }
+                        Err(m) => return Err(Violation::new("unexpected-panic", i, "reset", m, name)),
+                    }
                     hd.log.clear();
                     hd.done = None;
                     hd.resets += 1;
@@ -337,7 +414,7 @@ impl Scenario for Lifecycle {
                     let hd = hs[h].as_ref().unwrap();
                     if let Some(o2) = guarded(|| hd.obj.fork()).map_err(|m| Violation::new("unexpected-panic", i, "clone", m, name))? {
                         obs.hit("fault.fork_midstream");
-                        let n = Handle { obj: o2, key: hd.key.clone(), log: hd.log.clone(), done: hd.done.clone(), resets: hd.resets };
+                        let n = Handle { obj: o2, key: hd.key.clone(), log: hd.log.clone(), done: hd.done.clone(), resets: hd.resets, refused: hd.refused };
                         hs.push(Some(n));
                     }
                 }
@@ -349,7 +426,11 @@ impl Scenario for Lifecycle {
         for slot in hs.iter_mut() {
             if let Some(hd) = slot {
                 if hd.done.is_none() {
-                    let got = guarded(|| hd.obj.result(false)).map_err(|m| Violation::new("unexpected-panic", n, "result", m, name))?;
+                    let got = match guarded(|| hd.obj.result(false)) {
+                        Ok(g) => g,
+                        Err(_) if hd.refused => continue,
+                        Err(m) => return Err(Violation::new("unexpected-panic", n, "result", m, name)),
+                    };
                     obs.out(&got);
                     let want = reference(v, outlen, &hd.key, &hd.log).map_err(|m| Violation::new("unexpected-panic", n, "fresh object", m, name))?;
                     if got != want {
